@@ -32,6 +32,45 @@ CLAIMED = {
          "Generate / use / replay / clear / regenerate histories of one-time passwords, 2FA recovery codes, TOTP codes (with and without replay protection) and SMS codes are enumerated with foreign, stale, stored-hash and empty candidates.",
          "storage has database semantics; bounded depth, 2 accounts, 2 browsers"),
 }
+E2 = "complete bounded product (E2) executed on the real implementation and compared with a reference function"
+CLAIMED.update({
+ "C08": ("exploration", "4/C08", E2 + ": session contents x context pre-load x requirement bits x refusal mode x mount-path x Paths.Mount x API/form x paths x raw queries",
+         "The full Cartesian product of everything the middleware's decision depends on (563k cases quick, 768k thorough incl. the deprecated boolean entry points) is run through the real MountedMiddleware2 inside LoadClientStateMiddleware and compared with a reference function for run / 404 / 401 / redirect (decoded redir parameter) / 500.",
+         "for mountPathed=true only clean paths are used"),
+ "C09": ("model_checking", "4/C09", E1 + "; reference idle clock advanced on the same history",
+         "All login / request / app-key / logout sequences with clock advances on either side of ExpireAfter, for several ExpireAfter values and whitelists; every request from a session with a user is compared with the reference clock: what the downstream handler can read, what the response leaves in the jar, and whether the deadline is pushed.",
+         "whole-second clock; a gap of exactly ExpireAfter is not asserted; only EventAuth logins"),
+ "C10": ("model_checking", "4/C10", E1 + " collecting every reachable session shape with all modules loaded; from every distinct state a logout with each HTTP method runs on a clone",
+         "Every session state reachable by any history of the other flows (logged in, half-authed, mid-2FA of both kinds, mid-enrolment of both kinds, mid-OAuth2, mid-e-mail-verification, expired, cookie only, application keys) is logged out of, over a grid of whitelists and configured methods; afterwards the jar holds only whitelisted keys (and the response's own flash), the cookie is gone, the next requests are unauthenticated and a pending second factor cannot be continued.",
+         "flash keys written by the logout response itself are part of the response; one browser"),
+ "C11": ("exploration", "4/C11", E2 + ": ALL handler programs up to length 7 (quick; 6.9e7 incl. store-failure variants) / 8 (thorough; 8.9e8) over 13 operations",
+         "Every sequence of put / delete / delete-all on either store, reads, header writes, body writes and two kinds of response-writer wrappers runs inside the real LoadClientStateMiddleware with recording stores sharing one timeline with the underlying writer; compared with reference list semantics; shorter programs are additionally run with a failing session or cookie store (delivered at most once, never after the first byte).",
+         "http.ResponseController.Flush is outside the alphabet"),
+ "C13": ("model_checking", "4/C13", E1 + "; oracle diffs every account's 2FA fields around every request and demands session kind and proof from ground truth",
+         "Every 2FA settings route (setup / confirm / remove / regen / e-mail verify, TOTP and SMS) is driven from fully authenticated, half-authenticated (incl. the first request that carries only the cookie), pending and anonymous sessions with code and token alphabets, with e-mail authorisation on and off, two refusal modes and (thorough) an error handler that renders a response.",
+         "SMS removal: any code the library sent to the registered number in this session; bounded depth"),
+ "C14": ("model_checking", "4/C14", E1 + " over start/callback interleavings of two browsers and two providers; plus the complete PID codec product",
+         "All interleavings of OAuth2 start and callback requests with state in {own, other browser's, previous, empty, garbage}, codes incl. provider uids containing the PID separator, and provider errors; a login requires the session's own unused state, spends it, and binds exactly the (provider, uid) the provider reported; the codec product shows injectivity and round trip.",
+         "'state spent' only asserted for answered callbacks (silent error handler writes nothing)"),
+ "C15": ("exploration", "4/C15", E2 + ": every return-target string up to 3 (thorough 4) tokens over a 22-token alphabet on every flow that follows it; WHATWG-faithful resolver as the oracle",
+         "All short strings over slashes, backslashes, mixed-case schemes, javascript:, hosts, userinfo, dots, percent-encoded separators, TAB / LF / space, './' and '../' are submitted as the redirect parameter of the password, OTP, TOTP, SMS, hijack round-trip and OAuth2 round-trip flows (form field and query, form and JSON mode, http and https site); the emitted Location / JSON location is resolved the way a browser does.",
+         "resolver is conservative (unparsable = same-site); safety only"),
+ "C16": ("model_checking", "4/C16", E1 + " collecting account states x paired runs on clones (E4) compared byte for byte",
+         "From every reachable account state (attempt counters, locked / expired lock / never locked, with and without TOTP, outstanding OTPs) in several module subsets and both lock/confirm orders, form and JSON, the three request pairs of the statement (plus variants with rm and with a return target) run on two clones; status, header map, body, session-jar delta and cookie-jar delta must be identical.",
+         "timing out of scope; pair (c) only where the lock automaton says the attempt does not lock"),
+ "C17": ("model_checking", "4/C17", E1 + " over the union of successful and failing steps of every flow; substring scan of all stored fields and of each transition's log lines for every plaintext the oracle knows",
+         "All-modules histories (form and JSON) including near-miss inputs a user really produces; after every transition passwords, OTPs, recovery codes, remember cookies and mailed tokens (also URL-encoded and unpadded spellings) are searched for in every stored field, the remember table and the log, and token mails are checked against the owner's addresses.",
+         "TOTP secrets / session-held SMS and e-mail-verify values outside the statement; no faults or malformed escapes in this alphabet"),
+ "C18": ("fault_enumeration", "4/C18", "fault enumeration (E3): every backend call of every request of scripted tours through all handlers is failed in turn, each error kind, both error handlers; four oracles incl. credential-acceptance probes on clones",
+         "For each request of tours covering every handler of every flow, each storage / hasher / renderer / SMS call it makes fails once (generic error and the interface's not-found sentinel) under the silent and the 500-writing handler: no panic, success implies saved, a session issued on a one-time credential implies its durable consumption, and no credential becomes acceptable that was not before and is not after the same request without the failure.",
+         "single faults; mailer and client-state store failures not injected"),
+ "C19": ("exploration", "4/C19", E2 + ": complete product of registration bodies against a reference validator; Rules.IsValid against an independent reference for all strings up to a length x a rule grid",
+         "Every combination of email / password / confirm_password classes and every subset of seven hostile extra fields, from an empty and a populated table, with and without confirm, form and JSON, two whitelists; plus 3.3e8 (thorough) rule evaluations.",
+         "byte lengths, ASCII class representatives"),
+ "C20": ("model_checking", "4/C20", "controlled scheduler (E5): stateless DFS over ALL schedules with at most 1 (quick) / 2 (thorough) preemptions at the harness seams, run directly on the real instance; solo-run equivalence, deadlock and tracked-cell oracles; plus a free-running Go race detector pass over all script pairs",
+         "Client scripts (register>confirm>login, login(rm)>restart>open, recover, e-mail verify, OTP) run as logical threads on one initialised instance with the shipped router, body reader, responder, redirector, logger and both mailers (SMTPMailer through an in-memory net/smtp), mail goroutines included; every schedule within the preemption bound is executed and each client's transcript must equal its solo run; the same bodies run free under -race with their k-th requests aligned.",
+         "scheduling points at seams (storer, mailer/SMTP, SMS, client state, crypto/rand before and after, mutexes, goroutine spawn, tracked cells); finer memory orderings are the race detector's part"),
+})
 NA = {}
 
 checks = []
@@ -60,7 +99,7 @@ m = {
            "baseline_off_cmd": "cd /repo && GOFLAGS=-mod=mod GOPROXY=off GOSUMDB=off GOTOOLCHAIN=local go test -json -vet=off -count=1 -timeout 25m ./...",
            "source_commits": [], "add_only": True},
  "engines": [{"name": "harness", "path": "/verif/harness", "serves_properties": sorted(CLAIMED),
-              "kind_free_text": "hand-written explicit-state / product / fault / schedule explorers driving the real authboss handlers inside a closed, clonable world"}],
+              "kind_free_text": "hand-written explicit-state (E1) / product (E2) / fault (E3) / paired-run (E4) / schedule (E5) explorers driving the real authboss handlers inside a closed, clonable world; harness/engine"}],
  "checks": checks,
  "notes": "All checks are bounded-exhaustive enumerations executed on the real implementation; see DESIGN.md.",
  "not_applicable": na,
